@@ -333,6 +333,21 @@ def run(ctx: Ctx):
                      f"container {ci.name} is not a dataclass: type_class() construction and "
                      f"field defaults do not work", rule="C03-R8b")
 
+    # every field default of a container is None or a fresh list: anything else is encoded as
+    # if the attribute had been set
+    ctx.rule("C03-R8c", "container field defaults are None or field(default_factory=list)", floor=1300)
+    for ci in grp_classes:
+        for nm, dv_ in ci.class_assigns.items():
+            if nm not in ci.annotations or nm.startswith("_") or nm == "avp_def":
+                continue
+            cons = f"{ci.name}.{nm}:default"
+            ctx.inst(cons, rule="C03-R8c")
+            okd = (isinstance(dv_, ast.Constant) and dv_.value is None) or _dataclass_list_default(dv_)
+            if not okd:
+                ctx.fail(cons, ci.loc(dv_), f"{ci.name}.{nm} defaults to `{ast.unparse(dv_)}` instead of "
+                         f"None: an attribute that was never set is not None, so "
+                         f"generate_avps_from_defs emits an AVP for it (and a class object as "
+                         f"default is shared by all instances)", rule="C03-R8c")
     _converters(ctx)
     _undefined_message(ctx)
 
